@@ -1,12 +1,12 @@
 SPECIFICATION Spec
 CONSTANTS
-  BaseIds = {2, 3, 5}
+  BaseIds = {3, 4}
   Toks = {"-q", "-vv", "--ansi", "--no-ansi", "-n", "-h", "-V"}
   MaxSw = 2
-  LitToks = {"--quiet", "--ansi"}
+  LitToks = {"-q"}
   MaxLit = 1
-  Behs = {"ok"}
-  Streams = {"both", "out"}
+  Behs = {"raise"}
+  Streams = {"none"}
 INVARIANT H_inscope
 INVARIANT P_quiet
 INVARIANT P_verbosity
